@@ -17,8 +17,9 @@
 
    Simplifications (each is exercised by the correspondence check, which runs the real index under
    random commit schedules):
-   - utxo_cache and OUTPOINT_TO_UTXO_ENTRY are one map (the split is property C12's subject; it is
-     observable with duplicate txids, see notes/satsidx.md and known_findings.txt);
+   - utxo_cache and OUTPOINT_TO_UTXO_ENTRY are one map; Index/SatCache.v models the split with an
+     arbitrary commit schedule and Proofs/SatCache_proofs.v shows it is unobservable unless a spent
+     input is shadowed (duplicate txid; known finding dup-spent-before-commit);
    - the null-outpoint entry is a separate field [lost] (no transaction of a valid chain spends
      the null outpoint);
    - u64 arithmetic is unbounded N: every quantity is bounded by Sat::SUPPLY < 2^51 on a valid
